@@ -421,7 +421,13 @@ func genH264DecCase(t *rapid.T) *H264DecCase {
 		typ := rapid.SampledFrom(h264Types).Draw(t, "type")
 		n := NALSpec{Type: typ, NRI: uint8(rapid.IntRange(0, 3).Draw(t, "nri")), Seed: rapid.Uint64().Draw(t, "nseed"), StartCode: 4}
 		n.Len = biased(t, "nlen", 2, 300, 2, 3, 4, 5)
+		if rapid.IntRange(0, 79).Draw(t, "bigunit") == 0 {
+			n.Len = rapid.SampledFrom([]int{2000, 65533, 65534, 65535, 65536, 65537, 70000}).Draw(t, "biglen")
+		}
 		u := H264DecUnit{N: n, Mode: rapid.SampledFrom([]string{"single", "stapa", "fua", "fua"}).Draw(t, "mode")}
+		if n.Len > 65535 && u.Mode == "stapa" {
+			u.Mode = "fua" // a STAP-A size field is 16 bits
+		}
 		switch u.Mode {
 		case "fua":
 			body := n.Len - 1
@@ -453,6 +459,9 @@ func genH264DecCase(t *rapid.T) *H264DecCase {
 		case "stapa":
 			c.Units = append(c.Units, u)
 			extra := rapid.IntRange(0, 4).Draw(t, "stapextra")
+			if rapid.IntRange(0, 19).Draw(t, "manystap") == 0 {
+				extra = rapid.IntRange(5, 20).Draw(t, "stapextramany")
+			}
 			for k := 0; k < extra; k++ {
 				n2 := NALSpec{Type: rapid.SampledFrom(h264Types).Draw(t, "type2"), NRI: uint8(rapid.IntRange(0, 3).Draw(t, "nri2")), Seed: rapid.Uint64().Draw(t, "nseed2"), StartCode: 4}
 				n2.Len = biased(t, "nlen2", 2, 100, 2, 3)
